@@ -11,6 +11,7 @@ import Driver.DiscCmd
 import Driver.TypedCmd
 import Driver.SchemaCmd
 import Driver.ClientCmd
+import Driver.ConnIdCmd
 
 namespace Aldrin.Driver
 open Aldrin
@@ -185,6 +186,8 @@ def step (ds : DState) (line : String) : DState × String :=
         | none => match typeIdCmd cmd args with
           | some out => (ds, out)
           | none => match schemaCmd cmd args with
+          | some out => (ds, out)
+          | none => match connIdCmd cmd args with
           | some out => (ds, out)
           | none => match discCmd ds.disc cmd args with
           | some (d, out) => ({ ds with disc := d }, out)
